@@ -184,6 +184,28 @@ def check_double(lines, first, t1, dt, pause):
     return probs
 
 
+def check_same_twice(lines, snip, t1, dt):
+    """The same snippet text injected twice (t1 and t1+dt): each injection runs once, so its Mark appears twice."""
+    sched = [(t1, ("inject", SNIPPETS[snip])), (t1 + dt, ("inject", SNIPPETS[snip]))]
+    run, recs = drive(lines, sched)
+    probs = []
+    tag = f"{snip}-twice"
+    for ob in run.obs:
+        if "tick_exception" in ob:
+            probs.append(("C14:tick-raised", ob["tick_exception"]))
+    if any(r.get("kind") == "inject" and not r["accepted"] for r in recs):
+        probs.append((f"C14:injection-rejected:{tag}", f"{[r.get('error') for r in recs]}"))
+    elif run.error_events:
+        probs.append((f"C14:method-error-after-injection:{tag}", f"{run.error_events[0]}"))
+    else:
+        n = run.marks().count("inj")
+        if n != 2:
+            probs.append((f"C14:same-snippet-injected-twice-ran-{n}-times:{snip}",
+                          f"'{SNIPPETS[snip]}' injected at ticks {t1} and {t1 + dt}: its Mark appeared {n} times (marks {run.marks()})"))
+    run.cleanup()
+    return probs
+
+
 def explore_program(item):
     forest, with_edit = item
     lines = pgen.to_lines(forest)
@@ -221,6 +243,15 @@ def explore_program(item):
                         stats["nontrivial"] += 1
                         for sig, what in check_double(lines, first, t1, dt, pause):
                             out.append((sig, what, {"lines": [c for _, c in lines], "double": [first, t1, dt, pause]}))
+    if len(lines) <= 2:
+        for snip in ("mark", "wait-mark"):
+            for t1 in range(1, min(last, 5) + 1):
+                for dt in (1, 3, 6):
+                    stats["exec"] += 1
+                    stats["double"] += 1
+                    stats["nontrivial"] += 1
+                    for sig, what in check_same_twice(lines, snip, t1, dt):
+                        out.append((sig, what, {"lines": [c for _, c in lines], "same_twice": [snip, t1, dt]}))
     seen, uniq = set(), []
     for s, w, c in out:
         if s not in seen:
@@ -258,13 +289,18 @@ def run(ctx):
         evaluations=tot["exec"], distinct_nontrivial=tot["nontrivial"], programs=len(items), double_injections=tot["double"], snippets=list(SNIPPETS.values()),
         rule="one execution per (program, snippet, injection tick, none|Pause|Hold around the injection, none|edit tick); "
              "non-trivial = injected while paused/on hold or followed by a live edit; plus, for programs of <= 2 lines, two "
-             "overlapping injections (multi-tick snippet, then a Mark 0..5 ticks later, with and without a Pause in between)",
+             "overlapping injections (multi-tick snippet, then a Mark 0..5 ticks later, with and without a Pause in between) and the "
+             "same snippet text injected twice",
         samples=[pgen.render(items[0][0]), pgen.render(items[len(items) // 2][0]), pgen.render(items[-1][0])],
         exhaustive=True, horizon=HORIZON)
 
 
 def replay(data):
     lines = [(f"L{i}", c) for i, c in enumerate(data["lines"])]
+    if "same_twice" in data:
+        snip, t1, dt = data["same_twice"]
+        print("program:", data["lines"], "snippet:", SNIPPETS[snip], "injected at", t1, "and", t1 + dt)
+        return check_same_twice(lines, snip, t1, dt)
     if "double" in data:
         first, t1, dt, pause = data["double"]
         print("program:", data["lines"], "first injection:", SNIPPETS[first], "at", t1, "second 'Mark: inj2' at", t1 + dt, "pause:", pause)
